@@ -186,7 +186,8 @@ pub fn p_canonization_ind(
     #[cfg(volute_verif)]
     verif_hook::record(Some(all_swaps), None);
     best.clone_from_slice(table);
-    let mut best_ind = 0;
+    // The swaps form a closed cycle: the initial table is the one reached by the last swap
+    let mut best_ind = all_swaps.len() - 1;
     let mut ind = 0;
     for swap in all_swaps {
         swap_adjacent_inplace(num_vars, table, *swap as usize);
@@ -209,7 +210,8 @@ pub fn n_canonization_ind(
     #[cfg(volute_verif)]
     verif_hook::record(None, Some(all_flips));
     best.clone_from_slice(table);
-    let mut best_ind = 0;
+    // The flips form a closed cycle: the initial table is the one reached by the last step
+    let mut best_ind = 2 * all_flips.len() - 1;
     let mut ind = 0;
     for flip in all_flips {
         flip_inplace(num_vars, table, *flip as usize);
@@ -235,7 +237,8 @@ pub fn npn_canonization_ind(
     #[cfg(volute_verif)]
     verif_hook::record(Some(all_swaps), Some(all_flips));
     best.clone_from_slice(table);
-    let mut best_ind = 0;
+    // Swaps and flips form closed cycles: the initial table is the one reached by the last step
+    let mut best_ind = 2 * all_swaps.len() * all_flips.len() - 1;
     let mut ind = 0;
     for swap in all_swaps {
         swap_adjacent_inplace(num_vars, table, *swap as usize);
